@@ -1,4 +1,4 @@
-from planlib import geo
+from planlib import geo, desc_fuzz
 
 OPS = ["vec_znx_zero", "vec_znx_copy", "vec_znx_negate", "vec_znx_add", "vec_znx_sub", "vec_znx_rotate", "vec_znx_automorphism",
        "vec_znx_big_add", "vec_znx_big_add_small", "vec_znx_big_add_small2", "vec_znx_big_sub", "vec_znx_big_sub_small_a",
@@ -38,6 +38,7 @@ PLAN = dict(
          "Non-trivial: res_size>=1 and the sizes are not all equal.",
     assumptions=["operands below 2^61 so add/sub stay inside int64 (documented 2^62 operand range)"],
     quick=_jobs("quick"), thorough=_jobs("thorough"),
+    fuzz=desc_fuzz("C08", fix=dict(k=(1, 10), logn=(0, 10))),
     required_classes=dict(all=["op:" + o for o in OPS] + _ORD3 + ["order:r<a", "order:r>a", "order:r=a", "res_size=0", "a_size=0", "b_size=0",
                                                                   "stride>N", "stride:huge", "module:NTT120", "cfg:generic", "extra_limbs", "alias:1", "alias:2", "alias:3", "alias:4"]
                           + ["k:%d" % k for k in range(1, 17)]),
